@@ -26,7 +26,7 @@ static void mode_decision_context_dctor(EbPtr p) {
     for (uint32_t cand_index = 0; cand_index < MODE_DECISION_CANDIDATE_MAX_COUNT; ++cand_index) {
         for (uint32_t coded_leaf_index = 0; coded_leaf_index < block_max_count_sb;
              ++coded_leaf_index)
-            if (obj->md_blk_arr_nsq[coded_leaf_index].palette_info.color_idx_map)
+            if (obj->md_blk_arr_nsq && obj->md_blk_arr_nsq[coded_leaf_index].palette_info.color_idx_map)
                 EB_FREE_ARRAY(obj->md_blk_arr_nsq[coded_leaf_index].palette_info.color_idx_map);
     }
     EB_FREE_ARRAY(obj->ref_best_ref_sq_table);
@@ -41,9 +41,11 @@ static void mode_decision_context_dctor(EbPtr p) {
     }
 #endif
     EB_DELETE_PTR_ARRAY(obj->candidate_buffer_ptr_array, MAX_NFL_BUFF);
-    EB_FREE_ARRAY(obj->candidate_buffer_tx_depth_1->candidate_ptr);
+    if (obj->candidate_buffer_tx_depth_1)
+        EB_FREE_ARRAY(obj->candidate_buffer_tx_depth_1->candidate_ptr);
     EB_DELETE(obj->candidate_buffer_tx_depth_1);
-    EB_FREE_ARRAY(obj->candidate_buffer_tx_depth_2->candidate_ptr);
+    if (obj->candidate_buffer_tx_depth_2)
+        EB_FREE_ARRAY(obj->candidate_buffer_tx_depth_2->candidate_ptr);
     EB_DELETE(obj->candidate_buffer_tx_depth_2);
     EB_DELETE(obj->trans_quant_buffers_ptr);
     EB_FREE_ALIGNED_ARRAY(obj->cfl_temp_luma_recon16bit);
@@ -114,8 +116,8 @@ EbErrorType mode_decision_context_ctor(ModeDecisionContext *context_ptr, EbColor
     EB_MALLOC_ARRAY(context_ptr->md_rate_estimation_ptr, 1);
     context_ptr->is_md_rate_estimation_ptr_owner = EB_TRUE;
 
-    EB_MALLOC_ARRAY(context_ptr->md_local_blk_unit, block_max_count_sb);
-    EB_MALLOC_ARRAY(context_ptr->md_blk_arr_nsq, block_max_count_sb);
+    EB_CALLOC_ARRAY(context_ptr->md_local_blk_unit, block_max_count_sb);
+    EB_CALLOC_ARRAY(context_ptr->md_blk_arr_nsq, block_max_count_sb);
     EB_MALLOC_ARRAY(context_ptr->md_ep_pipe_sb, block_max_count_sb);
     // Fast Candidate Array
     EB_MALLOC_ARRAY(context_ptr->fast_candidate_array, MODE_DECISION_CANDIDATE_MAX_COUNT);
